@@ -2,8 +2,10 @@ package c18
 
 import (
 	"bytes"
+	"errors"
 	"fmt"
 	"math"
+	"os"
 	"strconv"
 	"strings"
 	"sync"
@@ -22,7 +24,13 @@ import (
 	"verif/harness/vf"
 )
 
-func TestMain(m *testing.M) { vf.Main(m, "C18") }
+func TestMain(m *testing.M) {
+	// font.ParseCFF (work in progress in the font package) writes a file "out.cff" into the working directory: keep that out of the harness tree
+	if dir := os.Getenv("VERIF_OUT"); dir != "" {
+		os.Chdir(dir)
+	}
+	vf.Main(m, "C18")
+}
 
 var (
 	once  sync.Once
@@ -547,6 +555,8 @@ type pdfFont struct {
 	uni     map[int][]rune
 	prog    *font.SFNT
 	base    string
+	vertical bool       // Identity-V: the writing mode of the font is vertical
+	dw2      [2]float64 // default vertical metrics: position vector y and vertical displacement
 	// read from the tables of the embedded program directly
 	numGlyphs int
 	upem      float64
@@ -711,7 +721,7 @@ func sfntTables(b []byte) (map[string][]byte, error) {
 }
 
 func readFont(f *pdfread.File, d pdfread.Dict) (*pdfFont, error) {
-	if d["Subtype"] != pdfread.Name("Type0") || d["Encoding"] != pdfread.Name("Identity-H") {
+	if d["Subtype"] != pdfread.Name("Type0") || (d["Encoding"] != pdfread.Name("Identity-H") && d["Encoding"] != pdfread.Name("Identity-V")) {
 		return nil, fmt.Errorf("font /Subtype %v /Encoding %v", d["Subtype"], d["Encoding"])
 	}
 	desc, ok := f.Resolve(d["DescendantFonts"]).(pdfread.Array)
@@ -722,7 +732,14 @@ func readFont(f *pdfread.File, d pdfread.Dict) (*pdfFont, error) {
 	if cf == nil {
 		return nil, fmt.Errorf("descendant font is not a dictionary")
 	}
-	pf := &pdfFont{w: map[int]float64{}, dw: 1000}
+	pf := &pdfFont{w: map[int]float64{}, dw: 1000, vertical: d["Encoding"] == pdfread.Name("Identity-V"), dw2: [2]float64{880, -1000}}
+	if v, ok := f.Resolve(cf["DW2"]).(pdfread.Array); ok && len(v) == 2 {
+		pf.dw2[0], _ = pdfread.Num(v[0])
+		pf.dw2[1], _ = pdfread.Num(v[1])
+	}
+	if cf["W2"] != nil {
+		return nil, fmt.Errorf("/W2 arrays are not handled")
+	}
 	if v, ok := pdfread.Num(cf["DW"]); ok {
 		pf.dw = v
 	}
@@ -943,6 +960,12 @@ func checkT(c TCase, r *vf.R) error {
 	if len(spans) > 0 && (adjusted || len(spans) > 1) {
 		r.NonTrivial()
 	}
+	usesCFF := false
+	for _, run := range c.Runs {
+		if run.Font == 1 {
+			usesCFF = true
+		}
+	}
 	fontCache := map[int]*pdfFont{}
 	for pi, pg := range pages {
 		fontRes := f.Dict(pg.Resources["Font"])
@@ -969,6 +992,10 @@ func checkT(c TCase, r *vf.R) error {
 				}
 				if fontCache[ref.Num] == nil {
 					pf, err := readFont(f, f.Dict(ref))
+					if err != nil && errors.Is(err, errCFFPrivate) && r.Excluded("F18b", usesCFF && c.Subset) {
+						// known finding: the rest of this document cannot be decoded
+						return nil
+					}
 					if err != nil {
 						return vf.Errorf("page %d: font /%s (object %d): %v", pi, a[0], ref.Num, err)
 					}
@@ -984,6 +1011,9 @@ func checkT(c TCase, r *vf.R) error {
 			case "TJ":
 				if !inText || cur == nil {
 					return vf.Errorf("page %d: TJ outside a text object or without a font", pi)
+				}
+				if cur.vertical {
+					return vf.Errorf("page %d: horizontal text is shown with a font whose encoding is Identity-V", pi)
 				}
 				if si >= len(spans) {
 					return vf.Errorf("page %d: more TJ operators than laid-out spans (%d)", pi, len(spans))
@@ -1100,4 +1130,164 @@ func scale(s oracle.Seg, f float64) oracle.Seg {
 
 func TestPDFText(t *testing.T) {
 	vf.Run(t, vf.Prop[TCase]{Sub: "pdftext", Gen: genT, Check: checkT, Cases: vf.N(150, 2500)})
+}
+
+// ---------------- PDF text in vertical writing mode ----------------
+
+type VCase struct {
+	Font   int     `json:"font"`
+	Size   float64 `json:"size"`
+	Text   string  `json:"text"`
+	Also   bool    `json:"also_horizontal"` // the same font is used for a horizontal line in the same document
+	Subset bool    `json:"subset"`
+}
+
+func genV(t *rapid.T) VCase {
+	return VCase{Font: rapid.IntRange(0, 1).Draw(t, "font"), Size: float64(rapid.IntRange(6, 24).Draw(t, "size")), Text: []string{"AB", "Hello", "fi x", "12 34", "WAVE"}[rapid.IntRange(0, 4).Draw(t, "text")], Also: rapid.Bool().Draw(t, "also"), Subset: rapid.Bool().Draw(t, "subset")}
+}
+
+// checkV lays out upright vertical text (every glyph advances downwards) and reads the PDF: the font of a vertical span must have the vertical writing mode (Identity-V), the codes must select the laid-out glyphs, and the pen must move down by the laid-out vertical advances: per ISO 32000-1 9.4.4 the displacement of a glyph in vertical mode is (w1 - Tj/1000) x font size with w1 from /DW2 (default -1000/1000).
+func checkV(c VCase, r *vf.R) error {
+	if err := setup(); err != nil {
+		return vf.Errorf("fonts: %v", err)
+	}
+	face := fonts[c.Font].Face(c.Size, canvas.Black, canvas.FontRegular, canvas.FontNormal)
+	rt := canvas.NewRichText(face)
+	rt.SetWritingMode(canvas.VerticalRL)
+	rt.SetTextOrientation(canvas.Upright)
+	rt.WriteString(c.Text)
+	var txt *canvas.Text
+	var buf bytes.Buffer
+	if err := vf.Try("vertical text to PDF", func() {
+		txt = rt.ToText(0, 200, canvas.Left, canvas.Top, 0, 0)
+		w := pdf.New(&buf, 210, 297, &pdf.Options{Compress: false, SubsetFonts: c.Subset})
+		if c.Also {
+			w.RenderText(canvas.NewTextLine(face, c.Text, canvas.Left), canvas.Identity.Translate(100, 250))
+		}
+		w.RenderText(txt, canvas.Identity.Translate(20, 280))
+		if err := w.Close(); err != nil {
+			panic(err)
+		}
+	}); err != nil {
+		return err
+	}
+	if c.Also {
+		r.NonTrivial()
+	}
+	f, probs := pdfread.Parse(buf.Bytes())
+	if len(probs) > 0 {
+		return vf.Errorf("PDF: %v", probs[0])
+	}
+	pages, probs := f.Validate()
+	if len(probs) > 0 || len(pages) != 1 {
+		return vf.Errorf("PDF: %v", probs)
+	}
+	var spans []canvas.TextSpan
+	txt.WalkSpans(func(x, y float64, span canvas.TextSpan) {
+		if span.IsText() {
+			spans = append(spans, span)
+		}
+	})
+	skip := 0
+	if c.Also {
+		skip = 1 // the horizontal line comes first
+	}
+	fontRes := f.Dict(pages[0].Resources["Font"])
+	var cur *pdfFont
+	size := 0.0
+	ntj := 0
+	n := func(v any) float64 { x, _ := pdfread.Num(v); return x }
+	for _, op := range pages[0].Ops {
+		switch op.Name {
+		case "Tf":
+			ref, ok := fontRes[op.Args[0].(pdfread.Name)].(pdfread.Ref)
+			if !ok {
+				return vf.Errorf("font /%s is not an indirect reference", op.Args[0])
+			}
+			pf, err := readFont(f, f.Dict(ref))
+			if err != nil {
+				return vf.Errorf("font /%s: %v", op.Args[0], err)
+			}
+			cur, size = pf, n(op.Args[1])
+		case "TJ":
+			ntj++
+			if ntj <= skip {
+				if cur == nil || cur.vertical {
+					return vf.Errorf("the horizontal line is shown with a vertical font")
+				}
+				continue
+			}
+			si := ntj - skip - 1
+			if si >= len(spans) {
+				return vf.Errorf("more TJ operators than vertical spans (%d)", len(spans))
+			}
+			sp := spans[si]
+			allVertical := true
+			for _, g := range sp.Glyphs {
+				if !g.Vertical {
+					allVertical = false
+				}
+			}
+			if !allVertical {
+				r.Class("span-not-upright")
+				continue
+			}
+			if cur == nil || !cur.vertical {
+				return vf.Errorf("span %q is laid out top to bottom (glyph advances %v) but its PDF font has the horizontal writing mode (Identity-H): a reader moves the pen to the right", sp.Text, advances(sp.Glyphs))
+			}
+			pen, want := 0.0, 0.0
+			gi := 0
+			for _, e := range op.Args[0].(pdfread.Array) {
+				if x, ok := pdfread.Num(e); ok {
+					pen -= x / 1000 * size
+					continue
+				}
+				s := e.(pdfread.String)
+				for k := 0; k+1 < len(s); k += 2 {
+					cid := int(s[k])<<8 | int(s[k+1])
+					if gi >= len(sp.Glyphs) {
+						return vf.Errorf("span %q: more codes than glyphs", sp.Text)
+					}
+					g := sp.Glyphs[gi]
+					gid, ok := cur.cid2gid(cid)
+					if !ok {
+						return vf.Errorf("span %q: code %d outside the CIDToGIDMap", sp.Text, cid)
+					}
+					eo, err1 := outline(cur.prog, uint16(gid))
+					so, err2 := outline(sp.Face.Font.SFNT, g.ID)
+					if err1 != nil || err2 != nil {
+						return vf.Errorf("glyph outlines: %v %v", err1, err2)
+					}
+					if err := sameOutlines(fmt.Sprintf("span %q glyph %d: code %d selects embedded glyph %d, source glyph %d", sp.Text, gi, cid, gid, g.ID), eo, so, 0.51); err != nil {
+						return err
+					}
+					if tol := float64(gi+1) * size / 1000; math.Abs(pen-want) > tol+1e-9 {
+						return vf.Errorf("span %q: glyph %d is shown at vertical pen position %.5f mm, the laid-out advances put it at %.5f mm", sp.Text, gi, pen, want)
+					}
+					pen += cur.dw2[1] / 1000 * size
+					want += sp.Face.MmPerEm * float64(g.YAdvance)
+					gi++
+				}
+			}
+			if gi != len(sp.Glyphs) {
+				return vf.Errorf("span %q: %d codes for %d glyphs", sp.Text, gi, len(sp.Glyphs))
+			}
+		}
+	}
+	if ntj != skip+len(spans) {
+		return vf.Errorf("%d TJ operators for %d spans", ntj, skip+len(spans))
+	}
+	return nil
+}
+
+func advances(gs []canvasText.Glyph) []int32 {
+	var out []int32
+	for _, g := range gs {
+		out = append(out, g.YAdvance)
+	}
+	return out
+}
+
+func TestPDFVertical(t *testing.T) {
+	vf.Run(t, vf.Prop[VCase]{Sub: "pdfvertical", Gen: genV, Check: checkV, Cases: vf.N(100, 1500)})
 }
